@@ -77,7 +77,7 @@ fn normalized_segments_dots<const N: usize>() {
     forget(it);
 }
 
-// @h prop=C09,C12 tier=quick kind=check timeout=2400 mem=10 bound="paths <= 7 bytes over the alphabet {'.','/','a'}" encodes="NormalizedSegmentsImpl::new (stack discipline for '..' after '..', after a segment, at the root)"
+// @h prop=C09,C12,C07 tier=quick kind=check timeout=2400 mem=10 bound="paths <= 7 bytes over the alphabet {'.','/','a'}" encodes="NormalizedSegmentsImpl::new (stack discipline for '..' after '..', after a segment, at the root)"
 #[cfg_attr(kani, kani::proof)]
 #[cfg_attr(kani, kani::unwind(10))]
 #[cfg_attr(kani, kani::stub(smallvec::SmallVec::try_grow, crate::stubs::sv_try_grow))]
